@@ -2543,6 +2543,12 @@ class Model:
             except Exception as e:
                 raise ModelError(f"Error when initially flushing junction: {j}") from e
 
+        # The flush changes compartment sizes at the current time index, so source population sizes
+        # cached by the parameter update that precedes it are out of date
+        for pop in self.pops:
+            for par in pop.pars:
+                par._source_popsize_cache_time = None
+
     def update_pars(self) -> None:
         """
         Update parameter values
